@@ -50,6 +50,7 @@ type config struct {
 	permuteMaps  bool
 	stopAtFirst  bool
 	verboseEvery time.Duration
+	focus        []string // obligation prefixes decided in this run; obligations of other properties are skipped
 }
 
 // ---- results ----
@@ -452,7 +453,26 @@ func (ex *exec) recordFailure(kind, oblig, msg string, negCond *sym) {
 }
 
 // assert implements verifAssert: discharge or record a candidate counterexample, then assume c.
+// outOfFocus: the obligation belongs to another property ("Cnn." prefix not among the focus prefixes).
+// Such an assertion is neither checked nor assumed here (the property's own check decides it), so
+// that its failure cannot cut the paths on which this run's obligations would fail.
+func (ex *exec) outOfFocus(oblig string) bool {
+	f := ex.w.cfg.focus
+	if len(f) == 0 || len(oblig) < 4 || oblig[0] != 'C' || oblig[3] != '.' || oblig[1] < '0' || oblig[1] > '9' || oblig[2] < '0' || oblig[2] > '9' {
+		return false
+	}
+	for _, p := range f {
+		if strings.HasPrefix(oblig, p) {
+			return false
+		}
+	}
+	return true
+}
+
 func (ex *exec) assert(c value, oblig string) {
+	if ex.outOfFocus(oblig) {
+		return
+	}
 	ex.oblig[oblig]++
 	switch c := c.(type) {
 	case bool:
